@@ -123,9 +123,18 @@ fn gen_dec_literal(r: &mut Rng) -> String {
             // exponents at the edges of the double range and of i32, digits (zeros too) after the overflow point
             let e = *r.pick(&[308i64, 309, -323, -324, -325, 400, -400, 22, 23, -22, -23, 2147483647, 2147483648, -2147483648, 99999999999,
                               21474836470, -21474836480, 30000000000, -30000000000, 1000000000000000, -1000000000000000, 2147483650, -2147483650]);
-            match r.below(4) {
+            // ... and within a few units of the i32 limits, so that the fraction
+            // digits (each lowers the exponent by one) carry the sum across them
+            let e = if r.chance(1, 3) { let k = r.below(40) as i64; *r.pick(&[2147483648i64 - k, -2147483648 + k, 2147483648 + k, -2147483648 - k]) } else { e };
+            match r.below(6) {
                 0 => format!("0e{}", e),
                 1 => format!("0.0e{}", e),
+                2 | 3 => {
+                    let nf = 1 + r.below(25) as usize;
+                    let mut fr = String::new();
+                    for _ in 0..nf { fr.push(std::char::from_digit(r.below(10) as u32, 10).unwrap()); }
+                    format!("{}{}.{}{}{}", if r.chance(1, 4) { "-" } else { "" }, r.below(20), fr, *r.pick(&["e", "E"]), e)
+                }
                 _ => format!("{}e{}", 1 + r.below(20), e),
             }
         }
@@ -158,7 +167,10 @@ pub fn run_c05(tier: &str, seed: u64, out: &mut Out) {
         // integers
         let (lit, radix, neg, digits) = gen_int_literal(&mut r);
         let case = format!("parse str {} {}", Ro::DEFAULT.code(), bytes_code(lit.as_bytes()));
-        let res = lexpr::from_str(&lit);
+        let res = match parse_value(Src::Str, Ro::DEFAULT, lit.as_bytes()) {
+            Ok(x) => x,
+            Err(p) => { out.fail("panic", format!("the parser panicked on the numeric literal {}: {}", lit, p), case.clone(), json!({"literal": lit})); continue; }
+        };
         out.count(&format!("int-radix:{}", radix));
         out.oracle_checks += 1;
         let big = Big::from_digits(&digits, radix);
@@ -188,7 +200,10 @@ pub fn run_c05(tier: &str, seed: u64, out: &mut Out) {
         // decimals
         let lit = gen_dec_literal(&mut r);
         let case = format!("parse str {} {}", Ro::DEFAULT.code(), bytes_code(lit.as_bytes()));
-        let res = lexpr::from_str(&lit);
+        let res = match parse_value(Src::Str, Ro::DEFAULT, lit.as_bytes()) {
+            Ok(x) => x,
+            Err(p) => { out.fail("panic", format!("the parser panicked on the numeric literal {}: {}", lit, p), case.clone(), json!({"literal": lit})); continue; }
+        };
         out.oracle_checks += 1;
         let is_decimal = lit.contains('.') || lit.contains('e') || lit.contains('E');
         if is_decimal {
@@ -811,7 +826,17 @@ fn check_io_conversion(out: &mut Out, e: lexpr::parse::Error, case: &str) {
     let ok = match cat {
         Category::Syntax => io.kind() == std::io::ErrorKind::InvalidData,
         Category::Eof => io.kind() == std::io::ErrorKind::UnexpectedEof,
-        Category::Io => io.to_string().contains("injected read failure"),
+        Category::Io => {
+            // the carried io::Error comes back itself: message and kind
+            let t = io.to_string();
+            match t.find("injected read failure #") {
+                Some(i) => match t[i + "injected read failure #".len()..].trim().parse::<u32>() {
+                    Ok(id) => io.kind() == fail_kind(id),
+                    Err(_) => false,
+                },
+                None => false,
+            }
+        }
     };
     if !ok { out.fail("io-kind", format!("conversion to io::Error gives kind {:?} for category {:?}", io.kind(), cat), case.to_string(), json!({})); }
 }
@@ -836,13 +861,22 @@ pub fn run_c19(tier: &str, seed: u64, out: &mut Out) {
             }
         }
         // an injected stream failure converts back to the original error
-        let rd = EvReader::new(vec![Ev::Bytes(text[..text.len() / 2].to_vec()), Ev::Fail(7)], 1 << 20);
-        if let Err(e) = lexpr::from_reader_custom(rd, ro.options()) { if e.classify() == Category::Io { check_io_conversion(out, e, "io conversion"); } }
+        let fid = r.below(1000) as u32;
+        let rd = EvReader::new(vec![Ev::Bytes(text[..text.len() / 2].to_vec()), Ev::Fail(fid)], 1 << 20);
+        if let Err(e) = lexpr::from_reader_custom(rd, ro.options()) {
+            if e.location().is_none() {
+                out.oracle_checks += 1;
+                if e.classify() != Category::Io {
+                    out.fail("io-category", format!("a read failure of kind {:?} is reported in category {:?}", fail_kind(fid), e.classify()), format!("io conversion f{}", fid), json!({"text": hex(&text)}));
+                }
+                check_io_conversion(out, e, "io conversion");
+            }
+        }
     }
     // truncation: every proper prefix of a well-formed single-datum text
     let cfg_d = GenCfg { max_depth: 3, max_len: 3, names: NameMode::PlainR7rs, floats: FloatMode::Finite, nil_bool: true };
     let cfg_e = GenCfg { max_depth: 3, max_len: 3, names: NameMode::PlainAllDialects, floats: FloatMode::Finite, nil_bool: true };
-    let singles: Vec<&str> = vec!["#nil", "#t", "#f", "#x1F", "#b-101", "#o17", "#d9", "1.5e10", "-0.25", "1e21", "5e-324", "#\\space", "#\\newline", "#\\x41", "#\\λ", "\"a\\x41;b\"", "\"\\n\\t\\\\\"", "#u8(1 2 255)", "#vu8(0)", "'(a b)", "`(a ,b ,@c)", "λx", "(a . b)", "#(1 #(2))", "#:kw", "(1 (2 (3)))", "\"λ→\"", "+.a", "...", "(a ;c\n b)", "#\\xD8A5D", "(a #\\xDB864 b)", "'.|x", "(a .\"b\")"];
+    let singles: Vec<&str> = vec!["#nil", "#t", "#f", "#x1F", "#b-101", "#o17", "#d9", "1.5e10", "-0.25", "1e21", "5e-324", "#\\space", "#\\newline", "#\\nul", "#\\null", "#\\alarm", "#\\backspace", "#\\tab", "#\\linefeed", "#\\vtab", "#\\page", "#\\return", "#\\esc", "#\\escape", "#\\delete", "#\\rubout", "#\\altmode", "#\\x41", "#\\λ", "\"a\\x41;b\"", "\"\\n\\t\\\\\"", "#u8(1 2 255)", "#vu8(0)", "'(a b)", "`(a ,b ,@c)", "λx", "(a . b)", "#(1 #(2))", "#:kw", "(1 (2 (3)))", "\"λ→\"", "+.a", "...", "(a ;c\n b)", "#\\xD8A5D", "(a #\\xDB864 b)", "'.|x", "(a .\"b\")"];
     let esingles: Vec<&str> = vec!["?\\xD8A5D", "[?\\154000 ?\\xdce48]", "(a . [?\\xd7ff])"];
     let m = n / 4;
     for i in 0..m + singles.len() + esingles.len() {
